@@ -154,6 +154,16 @@ var slotTemplates = []template{
 		{"", "if true {", "for i := range 2 {", "for v in [1] {", "for i := 0; i < 1; i++ {", "for {", "switch 1 { case 1:", "func() {", "try(func() {", "z := [1]; for v in z {", "if false { } else {"},
 		{"func() { nope }", "g := func() { nope }", "func() { break }()", "func(a=nope) {}", "func() { const c = 1; c = 2 }", "func() { return func() { nope2 } }", "func h() { nope }", "func() { x := 1; x := 2 }", "func() { continue }"},
 		{"", "}", "}()", "})", "; break }"}}},
+	{"recursion", [][]string{
+		// unbounded recursion through every path a call can take: each must end in an error, not in the
+		// death of the process (the frame limit only sees calls whose frame is still active)
+		{"func r(a) {"},
+		{"r(a)", "return r(a)", "defer r(a)", "return [a].map(r)", "[a].each(r)", "return [a].filter(r)", "return try(func() { return r(a) })",
+			"return try(func() { error(\"e\") }, func(e) { return r(a) })", "return sorted([2, 1], func(x, y) { return r(x) })", "return a | r",
+			"return r(a) + 1", "return func() { return r(a) }()", "defer func() { r(a) }()", "for { r(a) }", "return '{r(a)}'", "return {\"k\": r(a)}",
+			"return [r(a)]", "return r(r(a))", "defer r(a); defer r(a)", "return r2(a) }\nfunc r2(a) { defer r(a)", "return y.each(func(k, v) { r(a) })"},
+		{"}\n"},
+		{"r(1)", "try(func() { r(1) })", "[1].map(r)", "x.each(r)", "func() { defer r(1) }()", "1 | r", "try(func() { r(1) }, func(e) { return r(2) })"}}},
 	{"incdec", [][]string{
 		{"x", "x.y", "x[0]", "1", "", "z := 1; z"},
 		{"++", "--"},
